@@ -221,15 +221,33 @@ structure Options where
   itstatGiven : Bool := false
 deriving Repr, DecidableEq
 
-/-- `kwargs.pop(...)` four times, then `if kwargs: raise TypeError`.  Values are integers
-    (`nanstop` by truthiness).  `none` = `TypeError`. -/
+/-- a default value of `kwargs.pop(name, default)` -/
+inductive OptVal where
+  | int (n : Int)
+  | bool (b : Bool)
+  | none
+deriving Repr, DecidableEq
+
+/-- `Optimizer.__init__`: `kwargs.pop(name, default)` in source order -/
+def optionDefaults : List (String × OptVal) :=
+  [("iter0", .int 0), ("maxiter", .int 100), ("nanstop", .bool false), ("itstat_options", .none)]
+
+/-- default of an integer / truth-valued option, read from the table -/
+def optionDefaultInt (k : String) : Int :=
+  match (optionDefaults.find? (fun p => p.1 == k)).map (fun p => p.2) with
+  | some (OptVal.int n) => n
+  | some (OptVal.bool b) => if b then 1 else 0
+  | _ => 0
+
+/-- `kwargs.pop(name, default)` for every entry of `optionDefaults`, then `if kwargs: raise TypeError`.
+    Values are integers (`nanstop` by truthiness).  `none` = `TypeError`. -/
 def parseKwargs (kw : List (String × Int)) : Option Options :=
   let get (k : String) : Option Int := (kw.find? (·.1 == k)).map (·.2)
-  let rest := kw.filter (fun p => !(["iter0", "maxiter", "nanstop", "itstat_options"].contains p.1))
+  let rest := kw.filter (fun p => !((optionDefaults.map (·.1)).contains p.1))
   if rest.isEmpty then
-    some { iter0 := (get "iter0").getD 0
-           maxiter := (get "maxiter").getD 100
-           nanstop := (get "nanstop").getD 0 != 0
+    some { iter0 := (get "iter0").getD (optionDefaultInt "iter0")
+           maxiter := (get "maxiter").getD (optionDefaultInt "maxiter")
+           nanstop := (get "nanstop").getD (optionDefaultInt "nanstop") != 0
            itstatGiven := (get "itstat_options").isSome }
   else none
 
@@ -949,5 +967,211 @@ def Timer.run (T : Timer L τ) (h : List (Call L τ)) : Timer L τ :=
 end
 
 end Clock
+
+/-! ## the source, statement by statement
+
+Normalised statement lists `(nesting depth, text)` of every method transcribed above (docstrings, comments,
+annotations and exception messages dropped; `ast.unparse` text).  `harness/driver_translate.py` regenerates
+`Scico/Generated/DriverSource.lean` from the working tree on every run and closes
+`skeletons = sourceSkeletons`, `signatures = sourceSignatures`, `optionDefaults = optionDefaults` by
+`decide +kernel`: a statement added, removed, reordered or changed in the source breaks an obligation. -/
+
+def sourceSkeletons : List (String × List (Nat × String)) := [
+  -- Optimizer.solve  →  solve / body / loop (Drv.timerStart, Drv.timerStop); solveX for callbacks that assign attributes
+  ("Optimizer.solve", [
+    (0, "self.timer.start()"),
+    (0, "maxiter = self.maxiter"),
+    (0, "for self.itnum in range(self.itnum, self.itnum + maxiter):"),
+    (1, "self.step()"),
+    (1, "if self.nanstop and (not self._working_vars_finite()):"),
+    (2, "raise ValueError"),
+    (1, "self.itstat_object.insert(self.itstat_insert_func(self))"),
+    (1, "if callback:"),
+    (2, "self.timer.stop()"),
+    (2, "callback(self)"),
+    (2, "self.timer.start()"),
+    (0, "self.timer.stop()"),
+    (0, "if maxiter > 0:"),
+    (1, "self.itnum += 1"),
+    (0, "self.itstat_object.end()"),
+    (0, "return self.minimizer()")]),
+  -- Optimizer.__init__  →  parseKwargs, optionDefaults, Drv.init, fieldSpecs, itstatSetup
+  ("Optimizer.__init__", [
+    (0, "iter0 = kwargs.pop('iter0', 0)"),
+    (0, "self.maxiter = kwargs.pop('maxiter', 100)"),
+    (0, "self.nanstop = kwargs.pop('nanstop', False)"),
+    (0, "itstat_options = kwargs.pop('itstat_options', None)"),
+    (0, "if kwargs:"),
+    (1, "raise TypeError"),
+    (0, "self.itnum = iter0"),
+    (0, "self.timer = Timer()"),
+    (0, "itstat_fields, itstat_attrib = self._itstat_default_fields()"),
+    (0, "itstat_extra_fields, itstat_extra_attrib = self._itstat_extra_fields()"),
+    (0, "itstat_fields.update(itstat_extra_fields)"),
+    (0, "itstat_attrib.extend(itstat_extra_attrib)"),
+    (0, "self.itstat_insert_func, self.itstat_object = itstat_func_and_object(itstat_fields, itstat_attrib, itstat_options)")]),
+  -- itstat_func_and_object  →  itstatFuncSource, mergedOptions, itstatSetup
+  ("itstat_func_and_object", [
+    (0, "itstat_return = 'return(' + ', '.join(['obj.' + attr for attr in itstat_attrib]) + ')'"),
+    (0, "scope = {}"),
+    (0, "exec('def itstat_func(obj): ' + itstat_return, scope)"),
+    (0, "default_itstat_options = {'fields': itstat_fields, 'itstat_func': scope['itstat_func'], 'display': False}"),
+    (0, "if itstat_options:"),
+    (1, "default_itstat_options.update(itstat_options)"),
+    (0, "itstat_insert_func = default_itstat_options.pop('itstat_func', None)"),
+    (0, "itstat_object = IterationStats(**default_itstat_options)"),
+    (0, "return (itstat_insert_func, itstat_object)")]),
+  -- _all_finite  →  Var.any, allFinite
+  ("_all_finite", [
+    (0, "return not snp.any(snp.logical_not(snp.isfinite(v)))")]),
+  -- Timer.__init__  →  Timer.init (Clock.Timer.init)
+  ("Timer.__init__", [
+    (0, "self.t0 = {}"),
+    (0, "self.td = {}"),
+    (0, "self.default_label = default_label"),
+    (0, "self.all_label = all_label"),
+    (0, "if labels is not None:"),
+    (1, "if not isinstance(labels, (list, tuple)):"),
+    (2, "labels = [labels]"),
+    (1, "for lbl in labels:"),
+    (2, "self.td[lbl] = 0.0"),
+    (2, "self.t0[lbl] = None")]),
+  -- Timer.start  →  Timer.startLabels, startOne, startEntry, Timer.start
+  ("Timer.start", [
+    (0, "if labels is None:"),
+    (1, "labels = self.default_label"),
+    (0, "if not isinstance(labels, (list, tuple)):"),
+    (1, "labels = [labels]"),
+    (0, "t = timer()"),
+    (0, "for lbl in labels:"),
+    (1, "if lbl not in self.td:"),
+    (2, "self.td[lbl] = 0.0"),
+    (2, "self.t0[lbl] = None"),
+    (1, "if self.t0[lbl] is None:"),
+    (2, "self.t0[lbl] = t")]),
+  -- Timer.stop  →  Timer.targets, updList, stopEntry, Timer.stop
+  ("Timer.stop", [
+    (0, "t = timer()"),
+    (0, "if labels is None:"),
+    (1, "labels = self.default_label"),
+    (0, "if labels == self.all_label:"),
+    (1, "labels = list(self.t0.keys())"),
+    (0, "elif not isinstance(labels, (list, tuple)):"),
+    (1, "labels = [labels]"),
+    (0, "for lbl in labels:"),
+    (1, "if lbl not in self.t0:"),
+    (2, "raise KeyError"),
+    (1, "if self.t0[lbl] is not None:"),
+    (2, "self.td[lbl] += t - self.t0[lbl]"),
+    (2, "self.t0[lbl] = None")]),
+  -- Timer.reset  →  Timer.targets, updList, resetEntry, Timer.reset
+  ("Timer.reset", [
+    (0, "if labels is None:"),
+    (1, "labels = self.default_label"),
+    (0, "if labels == self.all_label:"),
+    (1, "labels = list(self.t0.keys())"),
+    (0, "elif not isinstance(labels, (list, tuple)):"),
+    (1, "labels = [labels]"),
+    (0, "for lbl in labels:"),
+    (1, "if lbl not in self.t0:"),
+    (2, "raise KeyError"),
+    (1, "self.t0[lbl] = None"),
+    (1, "self.td[lbl] = 0.0")]),
+  -- Timer.elapsed  →  Timer.elapsedDefault, elapsedEntry, Timer.elapsed
+  ("Timer.elapsed", [
+    (0, "t = timer()"),
+    (0, "if label is None:"),
+    (1, "label = self.default_label"),
+    (1, "if label not in self.t0:"),
+    (2, "return 0.0"),
+    (0, "if label not in self.t0:"),
+    (1, "raise KeyError"),
+    (0, "te = 0.0"),
+    (0, "if self.t0[label] is not None:"),
+    (1, "te = t - self.t0[label]"),
+    (0, "if total:"),
+    (1, "te += self.td[label]"),
+    (0, "return te")]),
+  -- Timer.labels  →  Store.keys
+  ("Timer.labels", [
+    (0, "return list(self.t0.keys())")]),
+  -- Timer.__str__  →  sortLabels, Timer.strRows
+  ("Timer.__str__", [
+    (0, "t = timer()"),
+    (0, "fldlen = [len(lbl) for lbl in self.t0] + [len(self.default_label)]"),
+    (0, "lfldln = max(fldlen) + 2"),
+    (0, "s = f'{'Label':{lfldln}s}  Accum.       Current\\n'"),
+    (0, "s += '-' * (lfldln + 25) + '\\n'"),
+    (0, "for lbl in sorted(self.t0):"),
+    (1, "td = self.td[lbl]"),
+    (1, "if self.t0[lbl] is None:"),
+    (2, "ts = ' Stopped'"),
+    (1, "else:"),
+    (2, "ts = f' {t - self.t0[lbl]:.2e} s'"),
+    (1, "s += f'{lbl:{lfldln}s}  {td:.2e} s  {ts}\\n'"),
+    (0, "return s")]),
+  -- ContextTimer.__init__  →  (the harness passes timer / label / action; `Timer()` default as Timer.init .none)
+  ("ContextTimer.__init__", [
+    (0, "if action not in ['StartStop', 'StopStart']:"),
+    (1, "raise ValueError"),
+    (0, "if timer is None:"),
+    (1, "self.timer = Timer()"),
+    (0, "else:"),
+    (1, "self.timer = timer"),
+    (0, "self.label = label"),
+    (0, "self.action = action")]),
+  -- ContextTimer.__enter__  →  ctxEnter
+  ("ContextTimer.__enter__", [
+    (0, "if self.action == 'StartStop':"),
+    (1, "self.timer.start(self.label)"),
+    (0, "else:"),
+    (1, "self.timer.stop(self.label)"),
+    (0, "return self")]),
+  -- ContextTimer.__exit__  →  ctxExit
+  ("ContextTimer.__exit__", [
+    (0, "if self.action == 'StartStop':"),
+    (1, "self.timer.stop(self.label)"),
+    (0, "else:"),
+    (1, "self.timer.start(self.label)"),
+    (0, "return not exc_type")]),
+  -- ContextTimer.elapsed  →  Timer.elapsed (ctx label)
+  ("ContextTimer.elapsed", [
+    (0, "return self.timer.elapsed(self.label, total=total)")]),
+  -- IterationStats.insert  →  statsInsert, dispInsert, cycleEnd
+  ("IterationStats.insert", [
+    (0, "self.iterations.append(self.IterTuple(*values))"),
+    (0, "if self.display:"),
+    (1, "if self.disphdr is not None:"),
+    (2, "print(self.disphdr)"),
+    (2, "self.disphdr = None"),
+    (1, "if self.overwrite:"),
+    (2, "if (len(self.iterations) - self.period_offset) % self.period == 0:"),
+    (3, "end = '\\n'"),
+    (2, "else:"),
+    (3, "end = '\\r'"),
+    (2, "print((' ' * self.colsep).join(self.fieldformat) % values, end=end)"),
+    (1, "elif (len(self.iterations) - self.period_offset) % self.period == 0:"),
+    (2, "print((' ' * self.colsep).join(self.fieldformat) % values)")]),
+  -- IterationStats.end  →  dispEnd
+  ("IterationStats.end", [
+    (0, "if self.display and self.overwrite and (self.period > 1) and (len(self.iterations) - self.period_offset) % self.period:"),
+    (1, "print()")]),
+  -- IterationStats.history  →  rows / historyTranspose
+  ("IterationStats.history", [
+    (0, "if transpose and self.iterations:"),
+    (1, "return self.IterTuple(*[[self.iterations[m][n] for m in range(len(self.iterations))] for n in range(len(self.iterations[0]))])"),
+    (0, "return self.iterations")])
+]
+
+/-- parameters and their default values -/
+def sourceSignatures : List (String × List (String × String)) := [
+  ("Optimizer.solve", [("self", ""), ("callback", "None")]),
+  ("Timer.__init__", [("self", ""), ("labels", "None"), ("default_label", "'main'"), ("all_label", "'all'")]),
+  ("Timer.start", [("self", ""), ("labels", "None")]),
+  ("Timer.stop", [("self", ""), ("labels", "None")]),
+  ("Timer.reset", [("self", ""), ("labels", "None")]),
+  ("Timer.elapsed", [("self", ""), ("label", "None"), ("total", "True")]),
+  ("ContextTimer.__init__", [("self", ""), ("timer", "None"), ("label", "None"), ("action", "'StartStop'")])
+]
 
 end Scico.Driver
